@@ -3,6 +3,7 @@ package drpcmetadata
 import (
 	"storj.io/drpc/drpcwire"
 	vrt "storj.io/drpc/internal/verifrt"
+	"storj.io/drpc/internal/verifrt/hx"
 )
 
 // ---- protobuf reference: message { map<string,string> data = 1; } ----
@@ -209,4 +210,31 @@ func VerifH_MetaDecodeOneLong() {
 	} else {
 		vrt.Cover("onelong-ok")
 	}
+}
+
+// VerifH_MetaContextScoping: two call contexts are built from the same defaults map with
+// AddPairs on a context without metadata, then each gets a per-call pair with Add. Each
+// context carries exactly its own pairs, the caller's map is left alone, and changing that
+// map afterwards does not change what a context carries.
+func VerifH_MetaContextScoping() {
+	base := hx.NewCtx()
+	k := vrt.Str("k", 1)
+	v := vrt.Str("v", 1)
+	vrt.Assume(k != "call")
+	defaults := map[string]string{k: v}
+	ctxA := Add(AddPairs(base, defaults), "call", "A")
+	ctxB := Add(AddPairs(base, defaults), "call", "B")
+	vrt.Assert(len(defaults) == 1 && defaults[k] == v, "attaching pairs to a context does not modify the caller's map")
+	defaults["late"] = "x"
+	a, okA := Get(ctxA)
+	b, okB := Get(ctxB)
+	vrt.Assert(okA && okB, "both contexts carry metadata")
+	vrt.Assert(len(a) == 2 && a[k] == v && a["call"] == "A", "the first call's context carries exactly the pairs attached to it")
+	vrt.Assert(len(b) == 2 && b[k] == v && b["call"] == "B", "the second call's context carries exactly the pairs attached to it")
+	_, okBase := Get(base)
+	vrt.Assert(!okBase, "the parent context is left without metadata")
+	// empty map: nothing attached
+	_, okE := Get(AddPairs(base, map[string]string{}))
+	vrt.Assert(!okE, "attaching an empty map attaches nothing")
+	vrt.Cover("meta-scoping-end")
 }
